@@ -386,12 +386,13 @@ func (a *recAdapter) contentKey() string {
 // ---------- recording watchers ----------
 
 type recWatcherBase struct {
-	Log  []string
-	snap func() string
+	Log      []string
+	snap     func() string
+	Callback func(string) // what SetWatcher / the user registered through SetUpdateCallback
 }
 
 func (w *recWatcherBase) rec(what string) { w.Log = append(w.Log, what+" @ "+w.snap()) }
-func (w *recWatcherBase) SetUpdateCallback(func(string)) error { return nil }
+func (w *recWatcherBase) SetUpdateCallback(f func(string)) error { w.Callback = f; return nil }
 func (w *recWatcherBase) Update() error                         { w.rec("update"); return nil }
 func (w *recWatcherBase) Close()                                {}
 
